@@ -927,13 +927,20 @@ fn facts(world: &World) -> String {
             };
             es.push(format!("{},{},{},{}", e.commit_global_tick.as_u64(), hx(&e.expected.state_root), hx(&e.expected.commit_hash), outs));
         }
+        let mut cps = Vec::new();
+        let mut at = WorldlineTick::MAX;
+        while let Some(cp) = world.provenance.checkpoint_before(*w, at) {
+            cps.push(cp.worldline_tick.as_u64().to_string());
+            at = cp.worldline_tick;
+        }
         s.push_str(&format!(
-            " wl={}:{}:{}:{}:{}",
+            " wl={}:{}:{}:{}:{}:{}",
             i,
             hx(&gen.state_root),
             hx(&gen.hash),
             strand,
-            if es.is_empty() { "-".to_string() } else { es.join("/") }
+            if es.is_empty() { "-".to_string() } else { es.join("/") },
+            if cps.is_empty() { "-".to_string() } else { cps.join(",") }
         ));
     }
     s
@@ -1153,10 +1160,14 @@ fn serve_optic(world: &mut World, f: &[&str]) -> String {
                 world.flags.push("optic-reading-for-non-worldline-coordinate".into());
             }
             let basis = match &r.read_identity.witness_basis {
-                WitnessBasis::ResolvedCommit { .. } => "commit",
-                WitnessBasis::CheckpointPlusTail { .. } => "checkpoint+tail",
-                WitnessBasis::WitnessSet { .. } => "set",
-                WitnessBasis::Missing { .. } => "missing",
+                WitnessBasis::ResolvedCommit { .. } => "commit".to_string(),
+                WitnessBasis::CheckpointPlusTail { checkpoint_ref, tail_witness_refs, .. } => format!(
+                    "checkpoint@{}+tail[{}]",
+                    checkpoint_ref.worldline_tick.as_u64(),
+                    tail_witness_refs.iter().map(|t| t.worldline_tick.as_u64().to_string()).collect::<Vec<_>>().join(",")
+                ),
+                WitnessBasis::WitnessSet { .. } => "set".to_string(),
+                WitnessBasis::Missing { .. } => "missing".to_string(),
             };
             format!(
                 "OR plan={} wit={} po={} bp={} pl={} | basis={} rid={}",
